@@ -19,7 +19,7 @@ RULE = (
     "result index tuple, screen hash); non-trivial = result is neither empty nor the full parent"
 )
 ASSUMPTIONS = ["Plate.merge (documented to mutate the parent) is not part of the composition language"]
-REQUIRED = {"parents_with_rows_marked_observed": {"quick": 200, "thorough": 3000}, "nodes_checked": {"quick": 9000, "thorough": 150000}, "alias_rechecks": {"quick": 100000, "thorough": 1500000}, "cross_parent_refusals": {"quick": 300, "thorough": 5000}}
+REQUIRED = {"plate_views_rechecked_after_merge": {"quick": 300, "thorough": 5000}, "parents_with_rows_marked_observed": {"quick": 200, "thorough": 3000}, "nodes_checked": {"quick": 9000, "thorough": 150000}, "alias_rechecks": {"quick": 100000, "thorough": 1500000}, "cross_parent_refusals": {"quick": 300, "thorough": 5000}}
 
 ATTRS = ["plate_ids", "sample_ids", "treatment_ids", "sample_names", "treatment_names", "treatment_doses", "observations", "observation_mask"]
 
@@ -99,7 +99,7 @@ def run_shard(rec, tier, seed, shard, nshards):
 
         n_nodes = int(rng.integers(15, 41))
         for ni in range(n_nodes):
-            op = str(rng.choice(["subset_screen", "subset_view", "subset_view", "combine", "concat", "invert", "get_plate", "plates", "observed", "unobserved", "observed", "to_screen", "unique", "cross", "mark_rows_observed"]))
+            op = str(rng.choice(["subset_screen", "subset_view", "subset_view", "combine", "concat", "invert", "get_plate", "plates", "observed", "unobserved", "observed", "to_screen", "unique", "cross", "mark_rows_observed", "merge_plates_then_ask_views"]))
             pi = int(rng.integers(len(parents)))
             P = parents[pi]
             try:
@@ -125,6 +125,25 @@ def run_shard(rec, tier, seed, shard, nshards):
                             rec.check(res is None, "C14/mask-split/expected-none", "%s view of an empty selection is not None" % which)
                         elif rec.check(res is not None, "C14/mask-split/none", "%s view is None although %d rows qualify" % (which, want.size)):
                             check_view(rec, res, Q, tuple(int(x) for x in want), "subset_%s after marking rows observed" % which, light=True)
+                elif op == "merge_plates_then_ask_views":
+                    # plate views that were already asked for their id / name, then two plates of the screen are merged
+                    # in place (the parent renumbers its plates): every view still reports what the parent holds at its rows
+                    from batchie.data import Screen as _Screen
+
+                    Q = _Screen(treatment_names=P.treatment_names.copy(), treatment_doses=P.treatment_doses.copy(), sample_names=P.sample_names.copy(), plate_names=P.plate_names.copy(), observations=P.observations.copy(), observation_mask=P.observation_mask.copy(), control_treatment_name=P.control_treatment_name)
+                    views = list(Q.plates)
+                    if len(views) < 3:
+                        continue
+                    _ = [(int(v.plate_id), str(v.plate_name), int(v.n_plates)) for v in views]
+                    i_, j_ = (int(x) for x in rng.choice(len(views), size=2, replace=False))
+                    views[i_].merge(views[j_])
+                    rec.count("plate_views_rechecked_after_merge", len(views))
+                    for v in views:
+                        rows_ = np.flatnonzero(np.asarray(v.selection_vector))
+                        ids_here = set(int(x) for x in np.asarray(Q.plate_ids)[rows_])
+                        names_here = set(str(x) for x in np.asarray(Q.plate_names)[rows_])
+                        rec.count("nodes_checked")
+                        rec.check(len(ids_here) == 1 and int(v.plate_id) in ids_here and str(v.plate_name) in names_here and np.array_equal(np.asarray(v.plate_ids), np.asarray(Q.plate_ids)[rows_]), "C14/view/attribute-mismatch", lambda: "after a merge a plate view reports plate_id %r / name %r, the parent holds ids %r / names %r at its rows" % (int(v.plate_id), str(v.plate_name), sorted(ids_here), sorted(names_here)))
                 elif op == "subset_screen":
                     m = _mask(rng, P.size)
                     add(P.subset(m), pi, tuple(np.flatnonzero(m)), 1, "Screen.subset")
